@@ -213,6 +213,9 @@ func TestVerifReplayConverge(t *testing.T) {
 		"unchanged intent re-applied":                                                     {{name: "A", prio: 10, json: ifTwo}, {name: "A", prio: 10, json: ifTwo}},
 		"unchanged intent with leaf-list and pattern re-applied":                          {{name: "A", prio: 10, json: llOne}, {name: "B", prio: 20, json: pattern}, {name: "A", prio: 10, json: llOne}},
 		"leaf-list replaced":                                                              {{name: "A", prio: 10, json: llOne}, {name: "A", prio: 10, json: llTwo}},
+		"leaf-list re-ordered, then an entry replaced":                                    {{name: "A", prio: 10, json: `{"leaflist":{"entry":["a","b","c"]}}`}, {name: "A", prio: 10, json: `{"leaflist":{"entry":["c","a","b"]}}`}, {name: "A", prio: 10, json: `{"leaflist":{"entry":["c","a","d"]}}`}},
+		"intent deleted, then deleted again (the retry of a delete)":                      {{name: "A", prio: 10, json: ifA}, {name: "B", prio: 20, json: pattern}, {name: "A", prio: 10, json: ""}, {name: "A", prio: 10, json: ""}},
+		"an intent that was never stored is deleted":                                      {{name: "B", prio: 20, json: pattern}, {name: "A", prio: 10, json: ""}},
 		"priority of an intent changed":                                                   {{name: "A", prio: 10, json: ifA}, {name: "B", prio: 7, json: ifB}, {name: "A", prio: 5, json: ifA}},
 		"presence container emptied, then intent deleted":                                 {{name: "A", prio: 10, json: case2}, {name: "A", prio: 10, json: case2E}, {name: "A", prio: 10, json: ""}},
 		"presence container populated":                                                    {{name: "A", prio: 10, json: case2E}, {name: "A", prio: 10, json: case2}},
@@ -417,7 +420,7 @@ func TestVerifReplayConverge(t *testing.T) {
 				break
 			}
 			if err != nil {
-				fmt.Printf("REPLAY-FAIL fn=%s clause=panic input=%s why=unexpected error %v\n", fnLL, in, err)
+				fmt.Printf("REPLAY-FAIL fn=%s clause=a_refusal_comes_from_a_step_that_failed input=%s why=no fault was injected, yet the request is refused: %v\n", fnLL, in, err)
 				break
 			}
 			rejected := false
@@ -619,6 +622,7 @@ func TestVerifReplayConverge(t *testing.T) {
 			if strings.Join(wantI, "; ") != strings.Join(gotI, "; ") {
 				fmt.Printf("REPLAY-FAIL fn=%s clause=children_are_always_visited input=%s why=intended store holds [%s], the live intents are [%s]\n", "(*tree.sharedEntryAttributes).GetByOwner", in, strings.Join(gotI, "; "), strings.Join(wantI, "; "))
 				fmt.Printf("REPLAY-FAIL fn=%s clause=intended_store_is_the_live_intents input=%s why=intended store holds [%s], the live intents are [%s]\n", fnLL, in, strings.Join(gotI, "; "), strings.Join(wantI, "; "))
+				fmt.Printf("REPLAY-FAIL fn=%s clause=changed_value_is_update input=%s why=intended store holds [%s], the live intents are [%s]\n", "(*tree.LeafVariants).Add", in, strings.Join(gotI, "; "), strings.Join(wantI, "; "))
 				if orphaned {
 					for _, f := range []string{"(*tree.LeafEntry).MarkDelete", "(*tree.sharedEntryAttributes).markOwnerDelete"} {
 						fmt.Printf("REPLAY-FAIL fn=%s clause=orphan_flag input=%s why=intended store holds [%s], the live intents are [%s]\n", f, in, strings.Join(gotI, "; "), strings.Join(wantI, "; "))
@@ -630,4 +634,5 @@ func TestVerifReplayConverge(t *testing.T) {
 	fmt.Printf("REPLAY-CASES fn=%s n=%d\n", fnLL, n)
 	fmt.Printf("REPLAY-CASES fn=%s n=%d\n", fnG, n)
 	fmt.Printf("REPLAY-CASES fn=%s n=%d\n", "(*tree.sharedEntryAttributes).populateChoiceCaseResolvers", n)
+	fmt.Printf("REPLAY-CASES fn=%s n=%d\n", "(*tree.LeafVariants).Add", n)
 }
